@@ -147,11 +147,20 @@ def run_documents(ck, T, n, depth, prop="C01"):
         sub = cases[:10] + cases[-3:]
         ref = res[:10] + res[-3:]
         for label, kw in (("python -O", {"pyflags": ["-O"]}),
-                          ("PYTHONHASHSEED=3, cwd=/", {"extra_env": {"PYTHONHASHSEED": "3"}, "cwd": "/"})):
+                          ("PYTHONHASHSEED=3, cwd=/", {"extra_env": {"PYTHONHASHSEED": "3"}, "cwd": "/"}),
+                          ("LC_ALL=C without UTF-8 mode", {"extra_env": {"LC_ALL": "C", "LANG": "C", "PYTHONUTF8": "0", "PYTHONCOERCECLOCALE": "0",
+                                                                         "PYTHONIOENCODING": "utf-8"}})):
             o2 = ck.try_impl("gds_impl.py", {"mode": "document", "order": order, "cases": sub}, timeout=300,
                              label="documents[%s]" % label, **kw)
             for case, a, b in zip(sub, ref, (o2 or {}).get("results", [])):
                 ck.tally("document-other-interpreter-configuration")
+                if label.startswith("LC_ALL=C"):
+                    # known finding: _read_neuroml2 calls os.path.realpath() on the XML TEXT of a string load before it
+                    # notices that it is not a file name; with an ASCII file-system encoding that raises for non-ASCII text
+                    kf = [m for m in b.get("entry_mismatch", []) if m.startswith("loader:read_neuroml2_string") and "UnicodeEncodeError" in m]
+                    if kf:
+                        ck.witness("%s:read_neuroml2_string:non-ascii-text-under-ascii-filesystem-encoding" % prop, kf[0], input=case)
+                        b = dict(b, entry_mismatch=[m for m in b.get("entry_mismatch", []) if m not in kf])
                 keys = [k for k in ("text0", "back0", "back2", "entry_mismatch", "err", "bytes_stable") if a.get(k) != b.get(k)]
                 if keys:
                     ck.witness("%s:interpreter-configuration:%s:%s" % (prop, label.split(",")[0].replace(" ", ""), keys[0]),
